@@ -89,6 +89,53 @@ Definition pstep (s : pstate) (i : nat) : pstate :=
 Fixpoint prun (s : pstate) (sched : list nat) : pstate :=
   match sched with [] => s | i :: sched' => prun (pstep s i) sched' end.
 
+(* ---- the same with eviction while the threads run ---- *)
+Definition holds (n : name) (t : tstate) : bool :=
+  match t with TDefined _ m | THolding _ m => Nat.eqb m n | _ => false end.
+Definition held (n : name) (ts : list tstate) : bool := existsb (holds n) ts.
+Definition cnames (c : list (key * name)) : list name := map snd c.
+
+(* store in the cache; when over capacity the least recently used wrapper is dropped, and finalised
+   (its global deleted) unless a thread still holds it *)
+Definition cache_insert (cap : nat) (k : key) (n : name) (c : list (key * name)) (g : list (name * key)) (ts : list tstate)
+  : list (key * name) * list (name * key) :=
+  let c1 := (k, n) :: c in
+  if Nat.ltb cap (length c1) then
+    match rev c1 with
+    | (k', n') :: _ => (removelast c1, if held n' ts then g else gdel n' g)
+    | [] => (c1, g)
+    end
+  else (c1, g).
+
+Definition pstep2 (cap : nat) (s : pstate) (i : nat) : pstate :=
+  match nth_error (threads s) i with
+  | None => s
+  | Some t =>
+      match t with
+      | TStart k =>
+          match cfind k (pcache s) with
+          | Some n => mkP (pctr s) (pglobals s) ((k, n) :: cdel k (pcache s)) (upd i (THolding k n) (threads s))
+          | None => mkP (pctr s) (pglobals s) (pcache s) (upd i (TAlloc k) (threads s))
+          end
+      | TAlloc k => mkP (S (pctr s)) (pglobals s) (pcache s) (upd i (TNamed k (pctr s)) (threads s))
+      | TNamed k n => mkP (pctr s) ((n, k) :: pglobals s) (pcache s) (upd i (TDefined k n) (threads s))
+      | TDefined k n =>
+          let ts' := upd i (THolding k n) (threads s) in
+          let '(c', g') := cache_insert cap k n (pcache s) (pglobals s) ts' in
+          mkP (pctr s) g' c' ts'
+      | THolding k n =>
+          let r := glookup n (pglobals s) in
+          let ts' := upd i (TDone r) (threads s) in
+          (* the wrapper is released: if the cache dropped it meanwhile and nobody else holds it, it is finalised now *)
+          let g' := if existsb (Nat.eqb n) (cnames (pcache s)) || held n ts' then pglobals s else gdel n (pglobals s) in
+          mkP (pctr s) g' (pcache s) ts'
+      | TDone _ => s
+      end
+  end.
+Fixpoint prun2 (cap : nat) (s : pstate) (sched : list nat) : pstate :=
+  match sched with [] => s | i :: sched' => prun2 cap (pstep2 cap s i) sched' end.
+
+
 (* the filter a thread is working on *)
 Definition key_of (t : tstate) : option key :=
   match t with TStart k | TAlloc k | TNamed k _ | TDefined k _ | THolding k _ => Some k | TDone _ => None end.
